@@ -58,7 +58,8 @@ def run_canary(unit, repo, workdir, rlimit):
     u = registry.UNITS[unit]
     tpl = os.path.join(VERIF, u['tpl'])
     try:
-        return verus.verify_unit(unit, tpl, repo, workdir, canary=True, rlimit=rlimit, timeout=u.get('timeout', 900))
+        return verus.verify_unit(unit, tpl, repo, workdir, canary=True, rlimit=rlimit, timeout=u.get('timeout', 900),
+                                 extra=['--verify-root', '--verify-function', '*__canary'])
     except Exception as e:
         return None
 
@@ -194,28 +195,26 @@ def main():
             if f.obligations() > 0 and len(samples) < 12 and f.name not in full_fns:
                 samples.append({'obligation': '%s::%s' % (u, f.name), 'mode': f.mode, 'ensures': f.ensures, 'invariant_clauses': f.invariants,
                                 'asserts': f.asserts, 'gen_lines': [f.start_line, f.end_line]})
-        # canary
+        # canary twins: every extracted fn has a copy NAME__canary with `ensures false` appended, which must FAIL
         cr = results[('canary', u)]
-        extracted_fns = [it.name for it in ur.items if it.kind == 'fn' and it.has_body and it.name not in U.get('no_canary', [])]
-        renamed = {}
         if cr is None or cr.compile_errors or (not cr.fn_results):
-            undecided.append('%s: canary run did not complete' % u)
+            undecided.append('%s: canary run did not complete%s' % (u, (': ' + cr.compile_errors[0]['message'][:200]) if cr and cr.compile_errors else ''))
         else:
-            # names after fnname rewrites: use cr.items order == ur.items order; the generated name is scanned from text
-            ok_all = True
-            cr_success = {}
+            twins = {}
             for path, fr in cr.fn_results.items():
-                cr_success.setdefault(fn_last(path), []).append(fr['success'])
-            gen_names = _generated_fn_names(cr)
-            for gname in gen_names:
-                if gname in U.get('no_canary', []):
+                nm = fn_last(path)
+                if nm.endswith('__canary'):
+                    twins.setdefault(nm, []).append(fr['success'])
+            expected = [it.gen_name for it in cr.items if it.is_twin and it.gen_name]
+            for gname in expected:
+                if gname[:-len('__canary')] in U.get('no_canary', []):
                     continue
-                if gname in cr_success and any(cr_success[gname]):
-                    ok_all = False
+                if gname not in twins:
+                    undecided.append('%s: canary twin %s was not checked' % (u, gname))
+                elif any(twins[gname]):
                     undecided.append('%s: VACUOUS contract: %s verifies with `ensures false` (contradictory preconditions/assumptions)' % (u, gname))
-                elif gname in cr_success:
+                else:
                     canaries_ok += 1
-            _ = ok_all
         # seeds (thorough): a failure under another seed is brittleness -> undecided, not a violation
         for sd in seeds_run:
             sr = results.get(('seed%d' % sd, u))
